@@ -11,6 +11,7 @@
 
 #include <boost/numeric/odeint/algebra/operations_dispatcher.hpp>
 
+#include "smooth/detail/verif_hooks.hpp"
 #include "smooth/manifolds.hpp"
 
 SMOOTH_BEGIN_NAMESPACE
@@ -62,6 +63,7 @@ struct BoostOdeintOps
     inline void operator()(T1 & y, const T2 & x, const Ts &... as) noexcept
     {
       y = smooth::rplus(x, helper(std::make_index_sequence<sizeof...(Ts)>(), as...));
+      SMOOTH_VERIF_ODEINT_STATE(y);
     }
 
     //! Required typedef.
